@@ -1,4 +1,5 @@
 import ScVerif.C10.SysReach
+import ScVerif.C10.SysRefine
 import ScVerif.C10.PropsBus
 import ScVerif.C10.PropsPipe
 /-!
@@ -163,6 +164,80 @@ theorem C10_e2e_writer_released (pl : Ev → Msg) (s : Sys) (t l : Nat) (tl : Li
     (sstep pl s (.bus (.sListenCancelled t))).isSome := by
   simp [sstep, busFree, step, hrest, hpc, hcan]
 
+/-- REFINEMENT: the composed system refines both of its halves, with matching data.  For every initial
+configuration, every payload function and EVERY composed schedule there are a bus schedule and, for each
+listener `l`, a pipeline schedule — all of whose moves are ENABLED (`exec`/`pexec` are strict: no move is
+skipped) — that lead from the initial bus / pipeline configuration to the bus half / `l`'s pipeline half of the
+composed state, and the messages the pipeline schedule pushes into the subscription's first stage are exactly
+the payloads of the events the bus model records as received by listener `l`, in the same order.  So nothing the
+bus theorems say about `recvd` (exactly once, per-sender order, only what was sent) is lost on the way into the
+pipeline, and the pipeline theorems apply to exactly the inputs the bus produces. -/
+theorem C10_e2e_refines (pl : Ev → Msg) (todo : Nat → Nat) (pipes : Nat → PConfig) (sched : List SMove) (l : Nat) :
+    ∃ bs ps, exec (init todo) bs = some (srun pl ⟨init todo, pipes⟩ sched).bus ∧
+      pexec (pipes l) ps = some ((srun pl ⟨init todo, pipes⟩ sched).pipe l) ∧
+      pushesOf ps = ((srun pl ⟨init todo, pipes⟩ sched).bus.ls l).recvd.map pl := by
+  obtain ⟨h1, h2, h3, h4⟩ := srun_refines pl ⟨init todo, pipes⟩ sched l
+  refine ⟨_, _, h1, h2, ?_⟩
+  rw [h4, h3]; simp [init]
+
+/-- END TO END delivery for a backpressure `Pull` (no excess stage, no PullID stage, pass-all filter) on
+listener `l`, every schedule: what the user has received is a prefix of `seed values ++ payloads of the events
+the bus delivered to l` — nothing duplicated, nothing reordered, nothing invented — and as long as the
+forwarding goroutine is alive nothing is lost either: received ++ in the forwarder's hand = seeds ++ delivered.
+With `C10_exactly_once` / `C10_per_sender_order` on the bus half (`C10_e2e_bus`): a subscriber live for a whole
+Send gets that event exactly once, in per-sender order, at the USER's end of the pipeline. -/
+theorem C10_e2e_backpressure_lossless (pl : Ev → Msg) (todo : Nat → Nat) (pipes : Nat → PConfig)
+    (sched : List SMove) (l : Nat) (hf : (pipes l).Fresh) (hex : (pipes l).hasEx = false)
+    (hpid : (pipes l).hasPid = false) (hk : ∀ x, (pipes l).keep x = true) :
+    let s := srun pl ⟨init todo, pipes⟩ sched
+    (s.pipe l).out <+: (pipes l).fwQ ++ (s.bus.ls l).recvd.map pl ∧
+    ((s.pipe l).fwDone = false → (s.pipe l).out ++ (s.pipe l).fwQ = (pipes l).fwQ ++ (s.bus.ls l).recvd.map pl) := by
+  intro s
+  obtain ⟨bs, ps, _, h2, h3⟩ := C10_e2e_refines pl todo pipes sched l
+  obtain ⟨i1, i2⟩ := pexec_lossless hex hpid hk h2
+  have ho : (pipes l).out = [] := hf.2.2.2.2.2.2.2
+  have hd : (pipes l).fwDone = false := hf.2.2.2.2.1
+  rw [h3, ho, List.nil_append] at i1 i2
+  exact ⟨i2 hd, i1⟩
+
+/-- Subscribing with a context that is ALREADY cancelled (a client that hung up before the handler called
+`Pull`): from any reachable state, for a listener slot `l` not used so far, cancel ▸ `Bus.Listen` starts the
+watcher ▸ any schedule whatsoever (registration, Sends that snapshot the dead listener, the pipeline's own
+steps, other subscriptions …): the context stays cancelled, the watcher exists, and until the watcher is done
+and every forwarding goroutine has returned some step of the subscription's own goroutines is enabled — the
+subscription cannot hang, whatever happens around it; with `C10_e2e_drain` and `C10_cancel_terminates_bus` it
+terminates and the user's channel is closed (`C10_pipeline_done`). -/
+theorem C10_e2e_precancelled (pl : Ev → Msg) (s : Sys) (h : SReachable pl s) (l : Nat)
+    (hfresh : (s.bus.ls l).lpc = .init) (sched : List SMove) :
+    let s' := srun pl s (.cancel l :: .bus (.lSpawn l) :: sched)
+    (s'.bus.ls l).cancelled = true ∧ (s'.bus.ls l).wpc ≠ .none ∧
+    (¬ ((s'.bus.ls l).wpc = .done ∧ (s'.pipe l).allDone = true) →
+      ∃ m, groupMove s' l m = true ∧ (sstep pl s' m).isSome) := by
+  intro s'
+  have hr : SReachable pl s' := h.srun _
+  let s1 := srun pl s [.cancel l, .bus (.lSpawn l)]
+  have hs' : s' = srun pl s1 sched := by
+    show srun pl s ([.cancel l, .bus (.lSpawn l)] ++ sched) = _
+    rw [srun_append]
+  have h1 : (s1.bus.ls l).cancelled = true ∧ (s1.bus.ls l).wpc ≠ .none := by
+    simp [s1, srun, snext, sstep, busFree, next, step, Config.setL, hfresh]
+  have hb : s'.bus = run s1.bus (traceB pl s1 sched) := by rw [hs']; exact srun_bus_run pl s1 sched
+  have hc : (s'.bus.ls l).cancelled = true := by rw [hb]; exact C10_cancelled_stable_run _ _ l h1.1
+  have hw : (s'.bus.ls l).wpc ≠ .none := by rw [hb]; exact wpc_ne_none_run _ _ l h1.2
+  exact ⟨hc, hw, fun hnd => C10_e2e_cancel_releases pl s' hr l hc hw hnd⟩
+
+/-- END TO END, however the ids are spelled: for EVERY id interceptor of the collection, when the REMOVE event
+that `Delete(rawDel)` published (it carries the intercepted id) reaches the PullID stage of a
+`PullID(ctx, rawSub)` subscription and the two spellings name the same item, the user's channel is closed and
+the bus listener of the inner Pull is cancelled in the same step. -/
+theorem C10_e2e_pullid_ends_any_spelling (pl : Ev → Msg) (s s' : Sys) (h : SReachable pl s) (l : Nat)
+    (icpt : Nat → Nat) (rawSub rawDel tag : Nat) (r : List Msg) (hsame : icpt rawSub = icpt rawDel)
+    (hp : (s.pipe l).hasPid = true) (hf : (s.pipe l).fixed = true)
+    (ht : (s.pipe l).target = pullIDTarget icpt rawSub) (hq : (s.pipe l).fwQ = changeOf icpt rawDel true tag :: r)
+    (hs : sstep pl s (.pipe l .xferFP) = some s') :
+    (s'.pipe l).outClosed = true ∧ (s'.bus.ls l).cancelled = true :=
+  C10_e2e_pullid_ends_on_remove pl s s' h l _ r hp hf hq (by simp [changeOf, ht, pullIDTarget, hsame]) rfl hs
+
 /-- non-vacuity: a backpressure `Pull` on listener 0 (forwarder only), one sender; the event is
 delivered through the composed rendezvous, consumed by the user, then cancel ▸ watcher ▸ close ▸ the
 forwarder exits: everything done, user channel closed. -/
@@ -175,5 +250,17 @@ example :
        .bus (.wLockAcq 0), .close 0, .bus (.wNil 0), .bus (.wUnlock 0), .pipe 0 .fwExitIn]
     (s.bus.ls 0).wpc = .done ∧ (s.pipe 0).allDone = true ∧ (s.pipe 0).outClosed = true ∧
       (s.pipe 0).out = [⟨0, false, 1⟩] ∧ (s.bus.ls 0).recvd = [⟨0, 1⟩] := by decide
+
+/-- non-vacuity: subscribe with a cancelled context (updates-only backpressure Pull: no seed), a writer sends
+meanwhile and meets the dead listener; everything of the subscription terminates without any consumer. -/
+example :
+    let pipes : Nat → PConfig := fun _ =>
+      { hasEx := false, exMerge := false, hasPid := false, target := 0, fixed := true, keep := fun _ => true }
+    let s := srun (fun e => ⟨0, false, e.seq⟩) ⟨init fun _ => 1, pipes⟩
+      [.cancel 0, .bus (.lSpawn 0), .bus (.lRegister 0), .bus (.sSnapshot 0), .bus (.sAcquire 0),
+       .bus (.sListenCancelled 0), .bus (.sRelease 0), .bus (.wAwake 0), .bus (.wLockReq 0), .bus (.wLockAcq 0),
+       .close 0, .bus (.wNil 0), .bus (.wUnlock 0), .pipe 0 .fwExitIn, .bus (.sFinish 0), .bus (.sCollect 0)]
+    (s.bus.ls 0).wpc = .done ∧ (s.pipe 0).allDone = true ∧ (s.pipe 0).outClosed = true ∧ (s.pipe 0).out = [] ∧
+      s.bus.bus = [] ∧ (s.bus.ss 0).results = [true] := by decide
 
 end ScVerif.C10
